@@ -44,6 +44,43 @@ package scen
 //   restart-resume                     accepted, unadvertised at Close: complete
 //                                      round within 10 min of the restarted
 //                                      node being online
+//   first-advert-after-fault           "While the node is online, every key
+//                                      given to StartProviding or ProvideOnce
+//                                      is advertised ... to the r peers nearest
+//                                      to it" + "missed work is caught up": a
+//                                      key accepted while the node was online
+//                                      by its own account and the router
+//                                      answered, whose every ADD_PROVIDER was
+//                                      refused by the recipients (send
+//                                      black-out: the router keeps answering,
+//                                      the node never leaves the online state),
+//                                      has a complete round within 10 min of
+//                                      the node being fault-free again. Only
+//                                      demanded where it is unambiguous: the
+//                                      whole fault window consisted of send
+//                                      black-outs (every recipient refuses), it
+//                                      ended at a quiet point, and no record of
+//                                      the key was delivered to anybody since
+//                                      it was accepted (a round that reached
+//                                      some recipients counts as done for the
+//                                      provider, which documents that it does
+//                                      not retry single recipients).
+//   first-advert-after-fault-reprovide (same clause; label of the open finding:
+//                                      the key is not kept, and it vanished
+//                                      from the provide queue while a region
+//                                      reprovide ran - see labelForgotten)
+//                                      Fault used: send black-out (step
+//                                      blackout-begin/-end) - every ADD_PROVIDER
+//                                      is refused after failLat, lookups are
+//                                      answered; it may begin while the calls
+//                                      of an API step are still outstanding
+//                                      (fault between exploration and sending).
+//                                      Not judged: keys of a window that also
+//                                      saw a router outage or single failing
+//                                      recipients, or in which the provider
+//                                      reported disconnected/offline (it clears
+//                                      its provide queue then), and black-outs
+//                                      that end while a round is in flight.
 //   schedule-merge                     (label of cadence/catch-up violations
 //                                      whose key's region was consolidated)
 //   api-panic/-hang/-error, close-panic/-hang, new-failed, leak
@@ -53,6 +90,7 @@ import (
 	"crypto/rand"
 	"crypto/sha256"
 	"encoding/binary"
+	"encoding/json"
 	"errors"
 	"fmt"
 	"io"
@@ -86,10 +124,11 @@ func init() {
 		"pb.MessageSender (level A, simnet.Sender; per-recipient failures)", "datastore (simds, not parking)", "self-address function", "crypto/rand.Reader (replaced for the run by a tape-seeded reader; no option exists)"}
 	probes := []string{"probe_region_split", "probe_region_merge", "probe_vanilla_path", "probe_batch_path", "probe_outage_during_round",
 		"probe_catchup_ran", "probe_restart_with_queued_work", "probe_stop_before_first_advert", "probe_worker_starvation",
-		"probe_reprovide_round", "probe_round_judged", "probe_first_advert", "probe_sut_offline", "probe_sut_disconnected", "probe_empty_prefix_queue_persisted"}
+		"probe_reprovide_round", "probe_round_judged", "probe_first_advert", "probe_sut_offline", "probe_sut_disconnected", "probe_empty_prefix_queue_persisted",
+		"probe_owed_after_blackout", "probe_owed_batch_after_blackout", "probe_advert_after_blackout"}
 	sim.Register(&sim.Scenario{Prop: "C17", Name: "sweep", Weight: 3, Run: func(s *sim.Sim) { runC17Sweep(s, true) },
 		Real: real, Stub: stub,
-		Faults: append([]string{"fault_outage", "fault_outage_midround", "fault_peer_fail", "fault_router_error", "fault_send_error", "time_advance", "swarm_grow", "swarm_shrink", "addr_change", "restart"}, probes...)})
+		Faults: append([]string{"fault_outage", "fault_outage_midround", "fault_peer_fail", "fault_send_blackout", "fault_router_error", "fault_send_error", "time_advance", "swarm_grow", "swarm_shrink", "addr_change", "restart"}, probes...)})
 	sim.Register(&sim.Scenario{Prop: "C17", Name: "sweep-clean", Weight: 2, Run: func(s *sim.Sim) { runC17Sweep(s, false) },
 		Real: real, Stub: stub,
 		Faults: append([]string{"time_advance", "swarm_grow", "swarm_shrink", "addr_change", "restart"}, probes[:4]...)})
@@ -321,12 +360,13 @@ const c17Jitter = 1237 * time.Millisecond
 const c17FirstBound = 10 * time.Minute
 
 type c17RouterCall struct {
-	Gid   uint64 // goroutine that made the call (a round's lookups run on one goroutine)
-	Key   string
-	At    time.Duration
-	Done  bool
-	Err   error
-	Reply []peer.ID
+	Gid    uint64 // goroutine that made the call (a round's lookups run on one goroutine)
+	Reprov bool   // made by a region REprovide (label of first-advert-after-fault violations only)
+	Key    string
+	At     time.Duration
+	Done   bool
+	Err    error
+	Reply  []peer.ID
 }
 
 type c17Key struct {
@@ -348,6 +388,14 @@ type c17Key struct {
 	msgsInFault   bool
 	ever          bool
 	nComplete     int
+	// owed: accepted while the node was online by its own account and the
+	// router had answered ever since the last clean window; no record of the key
+	// was delivered to anybody since (rule first-advert-after-fault)
+	owed bool
+	// forgotten: owed, and found in no queue at a quiet point; lostInReprov: a
+	// region REprovide had run since the quiet point before (label of
+	// first-advert-after-fault violations, decides nothing)
+	forgotten, lostInReprov bool
 
 	ok, all  map[peer.ID]bool // recipients since the last fixpoint
 	spanning bool
@@ -385,17 +433,18 @@ type c17H struct {
 	wake chan struct{}
 
 	// world
-	swarm     []*simnet.Peer
-	member    map[peer.ID]bool
-	usedPeer  map[int]bool
-	outage    bool
-	failing   map[peer.ID]bool
-	addrMu    sync.Mutex
-	addrs     []ma.Multiaddr
-	addrGen   int
-	routerMu  sync.Mutex
-	routerLog []*c17RouterCall
-	routerIdx int
+	swarm      []*simnet.Peer
+	member     map[peer.ID]bool
+	usedPeer   map[int]bool
+	outage     bool
+	sendOutage bool // send black-out: every recipient refuses, the router answers
+	failing    map[peer.ID]bool
+	addrMu     sync.Mutex
+	addrs      []ma.Multiaddr
+	addrGen    int
+	routerMu   sync.Mutex
+	routerLog  []*c17RouterCall
+	routerIdx  int
 
 	// system under test
 	ds      *simds.DS
@@ -440,6 +489,9 @@ type c17H struct {
 	emptyPrefixAtRestart bool
 	lastOnlineAt         time.Duration
 	boundC               time.Duration
+	winSendOnly          bool         // the open fault window consists of send black-outs only
+	offCount             atomic.Int32 // disconnected / offline callbacks of the provider
+	lastOffCount         int32
 }
 
 func (h *c17H) signal() {
@@ -455,8 +507,8 @@ type c17Router struct{ h *c17H }
 
 func (r *c17Router) GetClosestPeers(ctx context.Context, key string) ([]peer.ID, error) {
 	h := r.h
-	gid, _ := c17Goids()
-	c := &c17RouterCall{Gid: gid, Key: key, At: h.s.Now()}
+	gid, _, reprov := c17GoidsX("batchReprovide")
+	c := &c17RouterCall{Gid: gid, Reprov: reprov, Key: key, At: h.s.Now()}
 	h.routerMu.Lock()
 	h.routerLog = append(h.routerLog, c)
 	h.routerMu.Unlock()
@@ -500,12 +552,21 @@ func (w *c17Sender) SendMessage(ctx context.Context, p peer.ID, m *pb.Message) e
 // Harness-side observation only: it attributes lookups and messages to rounds
 // for the label of recipients-nearest violations.
 func c17Goids() (self, parent uint64) {
+	self, parent, _ = c17GoidsX("")
+	return
+}
+
+// c17GoidsX additionally reports whether a function whose name contains fn is
+// on the calling goroutine's stack (labels only, see unexploredRound and
+// labelForgotten).
+func c17GoidsX(fn string) (self, parent uint64, onStack bool) {
 	buf := make([]byte, 16<<10)
 	st := string(buf[:runtime.Stack(buf, false)])
 	fmt.Sscanf(st, "goroutine %d ", &self)
 	if i := strings.LastIndex(st, " in goroutine "); i >= 0 {
 		fmt.Sscanf(st[i:], " in goroutine %d", &parent)
 	}
+	onStack = fn != "" && strings.Contains(st, fn)
 	return
 }
 
@@ -585,6 +646,9 @@ func (h *c17H) newProvider() {
 		return func() {
 			if h.sutGen.Load() == gen {
 				h.sut.Store(v)
+				if v != c17Online {
+					h.offCount.Add(1)
+				}
 			}
 		}
 	}
@@ -742,7 +806,7 @@ func (h *c17H) answer(p *sim.Parked) {
 		// exploration); the others are connectivity probes and the prefix-length
 		// estimate. Only used to label recipients-nearest violations.
 		if h.byMh[c.Key] != nil || (len(c.Key) == 34 && strings.Trim(c.Key[6:], "\x00") == "") {
-			h.lookups = append(h.lookups, c17Lookup{gid: c.Gid, key: c.Key, target: simnet.KadOfKey(c.Key), reply: ids})
+			h.lookups = append(h.lookups, c17Lookup{gid: c.Gid, reprov: c.Reprov, key: c.Key, target: simnet.KadOfKey(c.Key), reply: ids})
 		}
 		for _, id := range ids {
 			h.reported[id] = h.chain
@@ -750,9 +814,16 @@ func (h *c17H) answer(p *sim.Parked) {
 		s.Release(p, ids)
 	case "rpc":
 		r := p.Data.(*simnet.RPC)
-		if h.outage || h.failing[r.To] || !h.member[r.To] {
+		if h.outage || h.sendOutage || h.failing[r.To] || !h.member[r.To] {
 			h.lastFailAt = s.Now()
 			s.Count("fault_send_error")
+			if c17Debug {
+				name := "?"
+				if k := h.byMh[string(r.Req.GetKey())]; k != nil {
+					name = k.name + "/" + kadBits(k.kad, 12)
+				}
+				s.Tracef("  add_provider %s -> %s REFUSED", name, h.u.Name(r.To))
+			}
 			s.Release(p, simnet.Reply{Err: errC17SendFail})
 			return
 		}
@@ -770,6 +841,61 @@ func (h *c17H) answer(p *sim.Parked) {
 // c17Soft (env VERIF_C17_SOFT, development aid) turns recipients-nearest
 // violations into counters to obtain a histogram over configurations.
 var c17Soft = os.Getenv("VERIF_C17_SOFT") != ""
+
+// Genuine findings of this check that are not yet recorded in
+// known_findings.json (c17PendingRules). Their rules are live as soon as the
+// rule id is listed there for C17 - status open: the driver reports
+// KNOWN-FINDING and exploration continues past it; status fixed: a violation
+// again. Until then a hit is counted as soft_<rule> (shown with the fault
+// counters of the evidence file), so that the registered check stays usable on
+// the unchanged tree. Env VERIF_C17_PENDING=strict raises them regardless
+// (that is how the replays under findings/ were recorded; strict=<rule> only
+// that rule), =soft never does.
+var c17PendingRules = map[string]bool{"first-advert-after-fault-reprovide": true, "buffered-close-drops-batch": true, "buffered-restart-reorder": true}
+
+var c17Listed struct {
+	once  sync.Once
+	rules map[string]bool
+}
+
+func c17RuleListed(rule string) bool {
+	c17Listed.once.Do(func() {
+		c17Listed.rules = map[string]bool{}
+		data, err := os.ReadFile(os.Getenv("VERIF_KNOWN_FILE"))
+		if err != nil {
+			return
+		}
+		var k struct {
+			Findings []struct{ Property, Rule string } `json:"findings"`
+		}
+		if json.Unmarshal(data, &k) != nil {
+			return
+		}
+		for _, f := range k.Findings {
+			if f.Property == "C17" {
+				c17Listed.rules[f.Rule] = true
+			}
+		}
+	})
+	return c17Listed.rules[rule]
+}
+
+func (h *c17H) violatePending(rule, format string, a ...any) {
+	if c17PendingRules[rule] {
+		mode := os.Getenv("VERIF_C17_PENDING")
+		if only, ok := strings.CutPrefix(mode, "strict="); ok {
+			mode = "soft" // (strict=<rule>: that rule only)
+			if only == rule {
+				mode = "strict"
+			}
+		}
+		if mode == "soft" || (mode != "strict" && !c17RuleListed(rule)) {
+			h.s.Count("soft_" + rule)
+			return
+		}
+	}
+	h.s.Violate(rule, format, a...)
+}
 
 // c17ForceViol (env VERIF_C17_FORCEVIOL=<step>, development aid) records a
 // violation after the given step, to exercise the abort path of a run.
@@ -807,7 +933,7 @@ func (h *c17H) wouldFail(p *sim.Parked) bool {
 		return h.outage
 	case "rpc":
 		r := p.Data.(*simnet.RPC)
-		return h.outage || h.failing[r.To] || !h.member[r.To]
+		return h.outage || h.sendOutage || h.failing[r.To] || !h.member[r.To]
 	}
 	return false
 }
@@ -942,7 +1068,7 @@ func (h *c17H) settled(now time.Duration) bool {
 }
 
 func (h *c17H) isClean() bool {
-	return h.prov != nil && !h.outage && len(h.failing) == 0 && h.sut.Load() == c17Online
+	return h.prov != nil && !h.outage && !h.sendOutage && len(h.failing) == 0 && h.sut.Load() == c17Online
 }
 
 // beginFault opens (or extends) a fault window: every liveness obligation is
@@ -951,6 +1077,8 @@ func (h *c17H) beginFault(kind string, cleanCut bool) {
 	if !h.inWindow {
 		h.inWindow = true
 		h.cleanCut = cleanCut
+		// (a black-out only keeps the owed obligations when it starts from a clean window)
+		h.winSendOnly = kind == "send" && h.cleanSince >= 0 && h.stillOnline()
 		h.prevClean = h.cleanSince
 		for _, k := range h.keys {
 			k.validBefore = k.kept && h.prevClean >= 0 && k.lastComplete >= h.prevClean
@@ -958,6 +1086,7 @@ func (h *c17H) beginFault(kind string, cleanCut bool) {
 		}
 	} else {
 		h.cleanCut = false
+		h.winSendOnly = h.winSendOnly && kind == "send"
 	}
 	h.cleanSince = -1
 	h.faultFree = -1
@@ -965,8 +1094,22 @@ func (h *c17H) beginFault(kind string, cleanCut bool) {
 	for _, k := range h.keys {
 		k.pendingFirst, k.resumePending = false, false
 		k.catchDue, k.promptDue = -1, -1
+		if !h.winSendOnly {
+			k.owed = false
+		}
 	}
-	_ = kind
+}
+
+// stillOnline: the provider is online and has not reported anything else
+// since the last fixpoint looked.
+func (h *c17H) stillOnline() bool {
+	return h.prov != nil && h.sut.Load() == c17Online && h.offCount.Load() == h.lastOffCount
+}
+
+func (h *c17H) dropOwed() {
+	for _, k := range h.keys {
+		k.owed = false
+	}
 }
 
 func (h *c17H) need(k *c17Key) []peer.ID { return h.nearest(k.kad, h.cfg.r) }
@@ -974,6 +1117,7 @@ func (h *c17H) need(k *c17Key) []peer.ID { return h.nearest(k.kad, h.cfg.r) }
 // c17Lookup is one answered lookup that belongs to a provide round.
 type c17Lookup struct {
 	gid    uint64
+	reprov bool
 	key    string
 	target simnet.Kad
 	reply  []peer.ID
@@ -1071,6 +1215,41 @@ func (h *c17H) unexploredRound(k *c17Key, need []peer.ID) (note string, found bo
 		}
 	}
 	return "", false
+}
+
+// labelForgotten looks, at a quiet point, whether the keys that are still
+// owed sit in the provide queue (injected read-only accessor). A key that is
+// owed, was delivered to nobody and is not queued while nothing is in flight
+// has been forgotten. Open finding first-advert-after-fault-reprovide: a
+// region reprovide takes the queued keys of its region along (a key that is
+// not kept gets into a reprovide only that way); when the reprovide then
+// fails, only the region goes back to the reprovide queue, and a ProvideOnce
+// key - not in the keystore either - is in no queue any more. The label is
+// given when a region reprovide (exploration lookups made from
+// batchReprovide) ran since the quiet point before the one at which the key
+// was found missing. Labels only; decides nothing.
+func (h *c17H) labelForgotten() {
+	if h.prov == nil {
+		return
+	}
+	reprovRan := false
+	for _, l := range h.lookups {
+		if l.reprov && h.byMh[l.key] == nil {
+			reprovRan = true
+		}
+	}
+	for _, k := range h.keys {
+		if !k.owed {
+			k.forgotten, k.lostInReprov = false, false
+			continue
+		}
+		if provider.VerifProvideQueueHas(h.prov, k.mh) {
+			k.forgotten, k.lostInReprov = false, false
+		} else if !k.forgotten {
+			k.forgotten, k.lostInReprov = true, reprovRan
+			h.s.Count("probe_owed_key_in_no_queue")
+		}
+	}
 }
 
 // observe folds finished ADD_PROVIDER calls into the per-key accumulators and
@@ -1179,6 +1358,13 @@ func (h *c17H) fixpoint(quiet bool) {
 	now := s.Now()
 	h.observe()
 	h.classifyRouterCalls()
+	if n := h.offCount.Load(); n != h.lastOffCount {
+		// the provider reported disconnected / offline since the last look: it
+		// clears its provide queue when it goes offline, nothing stays owed
+		h.lastOffCount = n
+		h.winSendOnly = false
+		h.dropOwed()
+	}
 	judged := !h.dirty && h.isClean()
 	var line []string
 	roundNow := map[int]bool{}
@@ -1203,6 +1389,11 @@ func (h *c17H) fixpoint(quiet bool) {
 		// not a second time as a missed deadline.
 		complete := len(k.ok) >= len(need)
 		wasPending := k.pendingFirst
+		if len(k.ok) > 0 {
+			// somebody holds a record now; a round that reached only some of its
+			// recipients is done for the provider (no retry of single recipients)
+			k.owed = false
+		}
 		if judged && !k.spanning {
 			s.Count("probe_round_judged")
 			// Did the round go wrong because its exploration stopped early (open
@@ -1246,6 +1437,9 @@ func (h *c17H) fixpoint(quiet bool) {
 			}
 			if k.pendingFirst {
 				s.Count("probe_first_advert")
+				if k.firstRule == "first-advert-after-fault" {
+					s.Count("probe_advert_after_blackout")
+				}
 			}
 			if h.lastOnlineAt >= 0 && k.kept && k.validBefore && now-h.lastOnlineAt <= c17FirstBound && h.outageSeenFail && k.catchDue >= 0 {
 				s.Count("probe_catchup_ran")
@@ -1270,6 +1464,7 @@ func (h *c17H) fixpoint(quiet bool) {
 		k.all, k.ok, k.spanning = nil, nil, false
 	}
 	if quiet {
+		h.labelForgotten()
 		// no round is in flight: later messages belong to later rounds
 		h.chain++
 		h.lookups = h.lookups[:0]
@@ -1318,6 +1513,22 @@ func (h *c17H) fixpoint(quiet bool) {
 					k.pendingFirst, k.firstRule, k.firstDue = true, "restart-resume", now+c17FirstBound
 				}
 			}
+			if h.inWindow && h.winSendOnly {
+				// rule first-advert-after-fault: the window that ends here consisted of
+				// send black-outs only and the node stayed online throughout
+				nOwed := 0
+				for _, k := range h.keys {
+					if k.owed && !k.pendingFirst {
+						k.pendingFirst, k.firstRule, k.firstDue = true, "first-advert-after-fault", now+c17FirstBound
+						s.Count("probe_owed_after_blackout")
+						nOwed++
+					}
+				}
+				if nOwed > 2 {
+					s.Count("probe_owed_batch_after_blackout")
+				}
+			}
+			h.winSendOnly = false
 			h.inWindow = false
 			if h.freshStart {
 				h.bootOnlineAt = now
@@ -1366,7 +1577,15 @@ func (h *c17H) fixpoint(quiet bool) {
 			if k.firstRule == "restart-resume" {
 				what = "accepted but not yet advertised when the provider was closed; restarted with resume"
 			}
-			s.Violate(k.firstRule, "%s (%s) has no complete round %v after %v", k.name, what, c17FirstBound, k.firstDue-c17FirstBound)
+			if k.firstRule == "first-advert-after-fault" {
+				what = "accepted while the node was online and the router answered; every ADD_PROVIDER for it was refused during a send black-out, the node stayed online, the black-out is over"
+			}
+			rule := k.firstRule
+			if rule == "first-advert-after-fault" && !k.kept && k.lostInReprov {
+				rule += "-reprovide"
+				what += "; it left the provide queue, delivered to nobody, while a region reprovide ran: the reprovide took it along and failed, only the region was queued again, the key (ProvideOnce: not in the keystore) is in no queue any more"
+			}
+			h.violatePending(rule, "%s (%s) has no complete round %v after %v", k.name, what, c17FirstBound, k.firstDue-c17FirstBound)
 			k.pendingFirst = false
 		}
 		bound := h.boundC
@@ -1629,6 +1848,9 @@ func keyMhs(ks []*c17Key) []mh.Multihash {
 func (h *c17H) accept(ks []*c17Key, kind string, force bool) {
 	now := h.s.Now()
 	clean := h.isClean() && h.cleanSince >= 0 && !h.dirty
+	// (rule first-advert-after-fault) online by the provider's own account, and
+	// the router has answered every call since the last clean window
+	owedOK := clean || (h.inWindow && h.winSendOnly && !h.outage && len(h.failing) == 0 && h.stillOnline())
 	for _, k := range ks {
 		if kind == "start" {
 			wasKept := k.kept
@@ -1647,6 +1869,9 @@ func (h *c17H) accept(ks []*c17Key, kind string, force bool) {
 		if clean {
 			// rule first-advert
 			k.pendingFirst, k.firstRule, k.firstDue = true, "first-advert", now+c17FirstBound
+		}
+		if owedOK {
+			k.owed, k.forgotten, k.lostInReprov = true, false, false
 		}
 	}
 }
@@ -1738,9 +1963,12 @@ func c17SweepBody(s *sim.Sim, c *c17Cfg, h *c17H) {
 	// bound so that every obligation created above comes due
 	if !s.Failed() && !h.stop {
 		s.Tracef("drain")
-		if h.outage || len(h.failing) > 0 {
+		if h.outage || h.sendOutage || len(h.failing) > 0 {
 			h.settle()
-			h.outage = false
+			if h.sendOutage && !h.quiet {
+				h.dropOwed() // see catSendFail
+			}
+			h.outage, h.sendOutage = false, false
 			h.failing = map[peer.ID]bool{}
 			h.dirty = true
 		}
@@ -1799,10 +2027,12 @@ func (h *c17H) step() {
 		catOutage
 		catPeerFail
 		catMidRound
+		catSendFail
 	)
 	weights := []int{catAdvance, catAdvance, catAdvance, catAdvance, catAdvance, catAdvance, catStart, catStart, catStart, catOnce, catStop, catStop, catSwarm, catSwarm, catAddrs, catRestart}
 	if c.faults {
-		weights = append(weights, catOutage, catOutage, catPeerFail, catMidRound)
+		// (new categories are appended at the end: recorded schedules keep their meaning)
+		weights = append(weights, catOutage, catOutage, catPeerFail, catMidRound, catSendFail, catSendFail)
 	}
 	cat := weights[s.Draw("step", len(weights))]
 	if len(h.keys) == 0 && (cat == catStart || cat == catOnce || cat == catStop) {
@@ -1817,6 +2047,12 @@ func (h *c17H) step() {
 			h.settleIfHeld()
 		}
 	case catMidRound:
+	case catSendFail:
+		// a black-out may begin while the calls of an API step are outstanding
+		// (the fault falls between exploration and sending); it ends at a quiet point
+		if h.sendOutage {
+			h.settle()
+		}
 	default:
 		h.settleIfHeld()
 	}
@@ -1862,6 +2098,7 @@ func (h *c17H) step() {
 					s.Count("probe_stop_before_first_advert")
 				}
 				k.kept = false
+				k.owed = false
 				k.stoppedAt = now
 				k.lastComplete = -1 // a later StartProviding starts a new history
 				k.validBefore, k.merged = false, false
@@ -1937,11 +2174,13 @@ func (h *c17H) step() {
 				k.resumePending = true
 			}
 			k.pendingFirst = false
+			k.owed = false
 			k.catchDue, k.promptDue = -1, -1
 			k.validBefore = false
 		}
 		h.cleanSince = -1
 		h.cleanCut = false
+		h.winSendOnly = false
 		h.dirty = true
 		h.held = false
 		h.chain++
@@ -1987,6 +2226,28 @@ func (h *c17H) step() {
 			s.Tracef("step fail-peers %s", strings.Join(names, ","))
 			s.Count("fault_peer_fail")
 			h.beginFault("peer", false)
+		}
+
+	case catSendFail:
+		// send black-out: every recipient refuses ADD_PROVIDER (stream resets,
+		// dial failures) while the router keeps answering, so the node stays
+		// online by its own account
+		if !h.sendOutage {
+			s.Tracef("step blackout-begin held=%v", h.held)
+			s.Count("fault_send_blackout")
+			h.sendOutage = true
+			h.beginFault("send", false)
+		} else {
+			if !h.quiet {
+				// a round is still in flight: the sends that are parked now will be
+				// delivered, and a region that reaches some of its recipients is done
+				// for the provider although single keys of it may have reached nobody
+				h.dropOwed()
+				s.Count("probe_blackout_end_in_flight")
+			}
+			s.Tracef("step blackout-end")
+			h.sendOutage = false
+			h.dirty = true
 		}
 
 	case catMidRound:
